@@ -56,7 +56,14 @@ Malform == \/ (call.span = 1 /\ N < 9 /\ call' = [call EXCEPT !.search.segs = Ap
            \/ (call.span = 0 /\ call' = [call EXCEPT !.search.segs[1] = <<"**">>, !.span = 2])
            \/ (call.span < 2 /\ Sr.segs[1] # <<"junk">> /\ SetSeg(1, <<"junk">>))
            \/ (call.span = 0 /\ N > 1 /\ SetSeg(N, <<"">>))
-Edit == StarAt \/ GtAt \/ CommaAt \/ GlobAt \/ AliasLast \/ Collapse \/ AddFilter \/ Malform
+\* a literal open value next to a run of '*' levels: in a file name the glob "*" of one field can swallow the separator
+\* and a neighbouring field ("oph" next to '*' against the entity "oph_elia") - the finders must still answer exactly
+OverMatch == edits = 0 /\ call.span = 0 /\ \E i \in 3..N : i <= Len(Templates[call.t].ph) /\ Raw.accept[BasePh(i)].any /\
+               \E side \in {"before", "after"} :
+                  LET S == IF side = "before" THEN {j \in 3..(i - 1) : j >= i - 3} ELSE {j \in (i + 1)..(N - 1) : j <= i + 2} IN
+                  S # {} /\ call' = [call EXCEPT !.search.segs = [j \in DOMAIN @ |->
+                                        IF j = i THEN <<NthConcrete(BasePh(i), 2)>> ELSE IF j \in S THEN <<"*">> ELSE @[j]]]
+Edit == StarAt \/ GtAt \/ CommaAt \/ GlobAt \/ AliasLast \/ Collapse \/ AddFilter \/ Malform \/ OverMatch
 
 Universes(i) == IF Family = "unfold" THEN {""}
                 ELSE IF Family = "finders" THEN {IF LeafTs(Templates[i].base) = {} THEN "any:all" ELSE Templates[i].base \o ":complete"}
